@@ -64,6 +64,8 @@ def module_bindings():
         # the optional-dependency idiom: the import succeeds, the fallback in the `except` / `else` clause never runs
         ("try-import-fallback", "try:\n    from ext import X\nexcept ImportError:\n    X = None", ALLP),
         ("if-import-else", "if True:\n    from ext import Y as X\nelse:\n    X = None", ALLP),
+        # wildcard imports: of a module without __all__ (X is bound), of one whose __all__ is empty or lists only Y (X is NOT bound: the name must come back unchanged)
+        ("wild-ext", "from ext import *", ALLP), ("wild-ext-empty-all", "from extn import *", ALLP), ("wild-ext-all-y", "from exty import *", ALLP),
     ]
     return m
 
@@ -118,7 +120,7 @@ def all_cases(tier):
         # class attribute: the ClassVar test reads the annotation's path): sites written after the second binding are bound by the second one
         for b1 in legal:
             for b2 in legal:
-                if b1[0] != "none" and b2[0] != "none" and b1[0] != b2[0]:
+                if b1[0] != "none" and b2[0] != "none" and b1[0] != b2[0] and not b1[0].startswith("wild-ext-"):  # (the first statement must bind X: `Early` reads it)
                     for site in ("mod-annotation", "decorator-callable", "method-annotation"):
                         yield (pos, (b1[0], "stmt:class Early:\n    e: X = None", b2[0]), "none", "none", site, "X")
         for imp, expr in DOTTED_REFS:
@@ -201,6 +203,8 @@ def files_for(case):
     pos = case[0]
     files = {p: STD for p in POSITIONS}
     files["ext.py"] = STD
+    files["extn.py"] = "__all__ = []\n" + STD
+    files["exty.py"] = "__all__ = ['Y']\n" + STD
     files[pos] = build_module(case)
     return files
 
@@ -249,7 +253,7 @@ def cpython_eval(case, root):
         except (TypeError, AttributeError):
             return "TYPEERROR"  # e.g. a module used as a base class: not a meaningful program
         finally:
-            for k in [k for k in sys.modules if k == "pkg" or k.startswith("pkg.") or k == "ext"]:
+            for k in [k for k in sys.modules if k == "pkg" or k.startswith("pkg.") or k in ("ext", "extn", "exty")]:
                 del sys.modules[k]
     return _path_of(o)
 
@@ -260,6 +264,9 @@ _RELOAD = False
 def griffe_eval(griffe, case, root):
     pos, mbs, cb, ob, site, ref = case
     loader = griffe.GriffeLoader(search_paths=[root], allow_inspection=False)
+    if any(b.startswith("wild-ext") for b in mbs):
+        for dep in ("ext", "extn", "exty"):
+            loader.load(dep)  # (a wildcard import is expanded from what is loaded: the dependency first)
     pkg = loader.load("pkg")
     loader.load("ext")
     mod = loader.modules_collection[POSITIONS[pos]]
